@@ -25,6 +25,7 @@ import (
 	"github.com/rpcpool/yellowstone-faithful/blocktimeindex"
 	"github.com/rpcpool/yellowstone-faithful/bucketteer"
 	"github.com/rpcpool/yellowstone-faithful/carreader"
+	"github.com/rpcpool/yellowstone-faithful/compactindexsized"
 	deprecatedbucketter "github.com/rpcpool/yellowstone-faithful/deprecated/bucketteer"
 	"github.com/rpcpool/yellowstone-faithful/gsfa"
 	hugecache "github.com/rpcpool/yellowstone-faithful/huge-cache"
@@ -888,6 +889,11 @@ func (ser *Epoch) GetBlock(ctx context.Context, slot uint64) (*ipldbindcode.Bloc
 	if err != nil {
 		return nil, cid.Cid{}, fmt.Errorf("failed to decode block with CID %s: %w", wantedCid, err)
 	}
+	if uint64(decoded.Slot) != slot {
+		// The slot-to-cid index only stores a hash of the key, so a slot that is NOT in the index can alias
+		// a stored one; the block we got then belongs to another slot.
+		return nil, cid.Cid{}, fmt.Errorf("slot %d resolves to the block of slot %d: %w", slot, decoded.Slot, compactindexsized.ErrNotFound)
+	}
 	return decoded, wantedCid, nil
 }
 
@@ -965,6 +971,11 @@ func (ser *Epoch) GetTransaction(ctx context.Context, sig solana.Signature) (*ip
 	decoded, err := iplddecoders.DecodeTransaction(data)
 	if err != nil {
 		return nil, cid.Cid{}, fmt.Errorf("failed to decode transaction with CID %s: %w", wantedCid, err)
+	}
+	if gotSig, err := decoded.Signature(); err != nil || gotSig != sig {
+		// The sig-to-cid index only stores a hash of the key, so a signature that is NOT in the index can
+		// alias a stored one; the transaction we got then does not carry the requested signature.
+		return nil, cid.Cid{}, fmt.Errorf("signature %s resolves to another transaction: %w", sig, compactindexsized.ErrNotFound)
 	}
 	return decoded, wantedCid, nil
 }
